@@ -135,6 +135,9 @@ def check(c):
     guard, diverged = gen.divergence_guard()
     kw = dict(epochs=c["epochs"], neg_batch_size=c["nbs"], k=c["k"], lr=0.01,
               callbacks=[LambdaCallback(on_epoch_start=lambda s, e: epochs.append(e)), guard])
+    if c["torch_seed"] % 4 == 0 and n <= 4 and c["epochs"] <= 4 and N <= 12:
+        # re-entrant use: a further callback makes public calls (evaluation, gradients, sampling, statistics, a fit of ANOTHER state) from inside every hook
+        kw["callbacks"] = [gen.busy_callback()] + kw["callbacks"] if c["torch_seed"] % 8 == 0 else kw["callbacks"] + [gen.busy_callback()]
     if bases is not None:
         kw["input_bases"] = bases
     if c.get("np_sizes"):
